@@ -215,7 +215,7 @@ def writeSites : List WriteSite := [
 /-- every loop over a map (or Registry.Range callback) with the order-relevant effects of its body -/
 def mapRanges : List MapRange := [
   ⟨"annotatedInternals", "live.Bag", "map", [.mapInsert "in.Bag"]⟩,
-  ⟨"applyBag", "bag", "map", [.field "ContentEncoding" "contentEncoding", .field "ContentMediaType" "contentMediaType", .field "ContentMediaType" "mime", .field "ExclusiveMaximum" "exclusiveMaximum", .field "ExclusiveMinimum" "exclusiveMinimum", .field "Format" "format", .field "MaxItems" "maxItems", .field "MaxLength" "maxLength", .field "MaxLength" "maxSize", .field "MaxProperties" "maxProperties", .field "Maximum" "maximum", .field "MinItems" "minItems", .field "MinLength" "minLength", .field "MinLength" "minSize", .field "MinProperties" "minProperties", .field "Minimum" "minimum", .field "MultipleOf" "multipleOf"]⟩,
+  ⟨"applyBag", "bag", "sortedKeys", [.field "ContentEncoding" "contentEncoding", .field "ContentMediaType" "contentMediaType", .field "ContentMediaType" "mime", .field "ExclusiveMaximum" "exclusiveMaximum", .field "ExclusiveMinimum" "exclusiveMinimum", .field "Format" "format", .field "MaxItems" "maxItems", .field "MaxLength" "maxLength", .field "MaxLength" "maxSize", .field "MaxProperties" "maxProperties", .field "Maximum" "maximum", .field "MinItems" "minItems", .field "MinLength" "minLength", .field "MinLength" "minSize", .field "MinProperties" "minProperties", .field "Minimum" "minimum", .field "MultipleOf" "multipleOf"]⟩,
   ⟨"convertObjectFromShape", "shape", "sortedKeys", [.appendSorted "required", .converterCall "convert", .field "path" "*", .mapInsert "properties"]⟩,
   ⟨"toJSONSchemaRegistry", "c.defs", "sortedKeys", [.mapInsert "rootSchema.Defs"]⟩,
   ⟨"toJSONSchemaSingle", "c.defs", "sortedKeys", [.mapInsert "s.Defs"]⟩,
